@@ -110,6 +110,48 @@ def tumbleRun (c : TumbleCfg) (src : List Msg × Bool) (budget : Option Nat) : R
   let (o, s) := tumbleMsgs c src.1
   cut budget (o, if s = .ok ∧ src.2 then .errSource else s)
 
+/-! ## the declared schemas (`OutputSchema`) and tumble's field lookup (`Materialize`) -/
+
+/-- what the code looks at in a field type: `TypeID == TypeIDTime` or not -/
+inductive FTy where
+  | time | int | union | other
+  deriving DecidableEq, Repr, Inhabited
+
+structure Schema where
+  fields : List (String × FTy)
+  timeField : Int            -- −1 = none
+  noRetr : Bool
+  deriving Repr
+
+/-- `OutputSchema`'s loop over the source fields for `time_field => DESCRIPTOR(name)`:
+    the first field with that name must be `Time` (else an error); `ok false` = no such field -/
+def findTimeField (name : String) : List (String × FTy) → Except Unit Bool
+  | [] => .ok false
+  | (n, t) :: rest =>
+    if n ≠ name then findTimeField name rest
+    else if t ≠ .time then .error ()
+    else .ok true
+
+/-- tumble's `OutputSchema` (`none` = one of its three errors) -/
+def tumbleSchema (timeField : Option String) (src : Schema) : Option Schema :=
+  let out : Schema := { fields := src.fields ++ [("window_start_0", .time), ("window_end_0", .time)]
+                        timeField := src.fields.length + 1, noRetr := src.noRetr }
+  match timeField with
+  | some name =>
+    match findTimeField name src.fields with
+    | .ok true => some out
+    | _ => none
+  | none => if src.timeField = -1 then none else some out
+
+/-- `Materialize`'s own loop for the same descriptor: the index of the first field with that name, 0 if there is none -/
+def lookupIdx (name : String) : List (String × FTy) → Nat → Nat
+  | [], _ => 0
+  | (n, _) :: rest, i => if n = name then i else lookupIdx name rest (i + 1)
+
+/-- range's and poll's `OutputSchema` -/
+def rangeSchema : Schema := { fields := [("i_0", .int)], timeField := -1, noRetr := true }
+def pollSchema (src : Schema) : Schema := { fields := ("time_0", .time) :: src.fields, timeField := 0, noRetr := false }
+
 /-! ## range -/
 
 /-- `Value.Int` of a value that is not an int is 0 -/
